@@ -59,6 +59,7 @@ type strict struct{ ociregistry.Interface }
 
 type strictReader struct {
 	ociregistry.BlobReader
+	ctx    context.Context
 	closed bool
 }
 
@@ -66,27 +67,34 @@ func (r *strictReader) Read(p []byte) (int, error) {
 	if r.closed {
 		return 0, errors.New("read from a reader that has been closed")
 	}
+	if err := r.ctx.Err(); err != nil {
+		return 0, fmt.Errorf("read from a reader whose request was %w", err)
+	}
 	return r.BlobReader.Read(p)
 }
 func (r *strictReader) Close() error { r.closed = true; return r.BlobReader.Close() }
 
-func strictR(r ociregistry.BlobReader, err error) (ociregistry.BlobReader, error) {
+func strictR(ctx context.Context, r ociregistry.BlobReader, err error) (ociregistry.BlobReader, error) {
 	if err != nil {
 		return r, err
 	}
-	return &strictReader{BlobReader: r}, nil
+	return &strictReader{BlobReader: r, ctx: ctx}, nil
 }
 func (s strict) GetBlob(ctx context.Context, repo string, d ociregistry.Digest) (ociregistry.BlobReader, error) {
-	return strictR(s.Interface.GetBlob(ctx, repo, d))
+	r, err := s.Interface.GetBlob(ctx, repo, d)
+	return strictR(ctx, r, err)
 }
 func (s strict) GetBlobRange(ctx context.Context, repo string, d ociregistry.Digest, o0, o1 int64) (ociregistry.BlobReader, error) {
-	return strictR(s.Interface.GetBlobRange(ctx, repo, d, o0, o1))
+	r, err := s.Interface.GetBlobRange(ctx, repo, d, o0, o1)
+	return strictR(ctx, r, err)
 }
 func (s strict) GetManifest(ctx context.Context, repo string, d ociregistry.Digest) (ociregistry.BlobReader, error) {
-	return strictR(s.Interface.GetManifest(ctx, repo, d))
+	r, err := s.Interface.GetManifest(ctx, repo, d)
+	return strictR(ctx, r, err)
 }
 func (s strict) GetTag(ctx context.Context, repo string, tag string) (ociregistry.BlobReader, error) {
-	return strictR(s.Interface.GetTag(ctx, repo, tag))
+	r, err := s.Interface.GetTag(ctx, repo, tag)
+	return strictR(ctx, r, err)
 }
 
 // ---- (a) reads over two independently populated members ----
@@ -345,7 +353,7 @@ func genRead(t *rapid.T) ReadScript {
 var propRead = &vt.Prop[ReadScript]{
 	ID:   "C15",
 	Name: "UnionReads",
-	Rule: "two ocimem members are populated by two independently generated histories over one universe (equal, disjoint, overlapping contents, the same manifest bytes stored under different media types, the same tag bound to different manifests, a repository known to one member only); the members' readers give no more data once closed, as a remote registry's do; 3-25 reads aimed at what either history touched (get/resolve blob, manifest, tag; ranges; repositories, tags, referrers with start points) are issued through ociunify under both policies, optionally with one member's digest-addressed reads delayed so that the member without the content answers first; oracle (from the members themselves) = digest reads succeed iff either member succeeds, with that member's bytes; tag reads: agreement or one side => that content, disagreement => error; listings = sorted duplicate-free union, NAME_UNKNOWN only when both say so; both policies identical; non-trivial = some read on which the members differ (conflict, one-sided, or different lists); distinct = (slow member, conflict/one-sided counts, read kinds)",
+	Rule: "two ocimem members are populated by two independently generated histories over one universe (equal, disjoint, overlapping contents, the same manifest bytes stored under different media types, the same tag bound to different manifests, a repository known to one member only); the members' readers give no more data once closed or once the context of the call that opened them is cancelled, as a remote registry's do; 3-25 reads aimed at what either history touched (get/resolve blob, manifest, tag; ranges; repositories, tags, referrers with start points) are issued through ociunify under both policies, optionally with one member's digest-addressed reads delayed so that the member without the content answers first; oracle (from the members themselves) = digest reads succeed iff either member succeeds, with that member's bytes; tag reads: agreement or one side => that content, disagreement => error; listings = sorted duplicate-free union, NAME_UNKNOWN only when both say so; both policies identical; non-trivial = some read on which the members differ (conflict, one-sided, or different lists); distinct = (slow member, conflict/one-sided counts, read kinds)",
 	Gen:  genRead,
 	Run:  runRead,
 }
